@@ -113,5 +113,13 @@ def run(prop, tier):
         print("EXTRA-VIOLATION module=ConfigLayers clauses=%s scenario=%s got=%s" % (",".join(sorted(f["clauses"])), json.dumps(recs[f["line"] - 1]["sc"]), json.dumps(recs[f["line"] - 1]["got"])))
     print("ConfigLayers: %d layer combinations through the real Config::read(), %d failing, of which %d are the known 'duplicate field' observation "
           "(auth_secret / rate_limiter given in a file and, under the alias spelling, in the environment)" % (len(recs), len(ct.marked["FAIL"]), known_dup))
+    # ---- the environment layer field by field (every field with an environment spelling is reachable; text stays text)
+    import cfgenv
+    erecs = cfgenv.observe(sorted(cfgenv.ENV), wd)
+    efails, et = cfgenv.judge(erecs, wd)
+    for r, clauses in efails:
+        bad += 1
+        print("EXTRA-VIOLATION module=ConfigLayers clauses=%s variable=%s given=%s got=%s" % (",".join(clauses), r["var"], r["given"], r["got"]))
+    print("ConfigLayers (environment layer): %d single-variable runs of Config::read(), %d failing" % (len(erecs), len(efails)))
     vlib.cleanup(wd)
     return 1 if bad else 0
